@@ -20,7 +20,7 @@ func VerifC02Profiles() {
 		p = profiles[pi]
 	} else {
 		c := New().(*profile)
-		if !runes && vnd.Param("C02.AllSubsets", 0, 1) == 1 {
+		if !runes && vnd.Param("C02.AllSubsets", 0, 0) == 1 {
 			c.removeUserInfo = vnd.Bool()
 			c.removePort = vnd.Bool()
 			c.removeFragment = vnd.Bool()
